@@ -465,7 +465,8 @@ def num_truth(ctx, repo, scope=("",), rule="NUM-TRUTH", _self=False):
 LEN1_AUDIT = {
     ("ttLib/tables/_c_m_a_p.py", "cmap_format_4.compile", "endCode"): "the last segment is the mandatory 0xFFFF terminator, handled after the loop",
     ("ttLib/tables/_c_m_a_p.py", "cmap_format_4.decompile", "startCode"): "the last segment is the 0xFFFF terminator and maps nothing",
-    ("cffLib/transforms.py", "_DehintingT2Decompiler.execute", "charString.program"): "the last token is the operator being executed; only the operands before it are scanned",
+    # (removed in session 3: the entry for _DehintingT2Decompiler.execute claimed "the last token is the operator being
+    #  executed"; it is the program's final return/endchar only in CFF1 -- CFF2 has neither: genuine defect K31)
 }
 
 
